@@ -86,15 +86,39 @@ def _reads(fi: FuncInfo, prog: Program):
     return attrs, globs, ambient
 
 
+def frozen_defaults(prog: Program, res, cg: CallGraph, reach) -> None:
+    """A default argument is evaluated once, when the `def` runs (at import): a default that calls an
+    ambient-state function freezes that state for all later calls."""
+    for q in sorted(reach):
+        fi = cg.funcs.get(q)
+        if fi is None or not hasattr(fi.node, "args"):
+            continue
+        a = fi.node.args
+        for d in list(a.defaults) + [k for k in a.kw_defaults if k is not None]:
+            bad = []
+            for n in ast.walk(d):
+                if isinstance(n, ast.Call):
+                    f = n.func
+                    nm = f.attr if isinstance(f, ast.Attribute) else (f.id if isinstance(f, ast.Name) else None)
+                    if nm in AMBIENT_CALLS:
+                        bad.append(src_of(n))
+            if bad:
+                res.ob("R00.default", q, f"default argument `{src_of(d)[:60]}`", False,
+                       f"{', '.join(bad)} is evaluated once at import time, not at each call: a later change of that "
+                       f"state is ignored by calls that rely on the default",
+                       sig="default argument freezes ambient state at import time")
+
+
 def apply(prog: Program, res) -> None:
-    """File the memoisation obligations of one property's result."""
+    """File the memoisation / default-argument obligations of one property's result."""
+    cg = CallGraph(prog)
+    roots = [q for q in getattr(res, "functions", ()) if q in cg.funcs]
+    reach = cg.reachable_from(roots) if roots else set()
+    frozen_defaults(prog, res, cg, reach)
     memo = memoised_functions(prog)
     if not memo:
         res.notes.append("memoisation by decorator: none in the package")
         return
-    cg = CallGraph(prog)
-    roots = [q for q in getattr(res, "functions", ()) if q in cg.funcs]
-    reach = cg.reachable_from(roots) if roots else set()
     # properties are looked up like methods: a cached property is reached by attribute access, which the
     # name-resolved call graph records as a call
     hit = sorted(q for q in memo if q in reach)
